@@ -260,6 +260,11 @@ retry_fetch_lv:
             if (final_check.get_vinsert_delete() != v_at_fetch_lv.get_vinsert_delete()) {
                 goto retry_fetch_lv; // NOLINT
             }
+            if (vp == nullptr &&
+                target_border->get_lv_of_without_lock(key_tup.get_key_slice(), key_tup.get_key_length()) != lv_ptr) {
+                // the slot was cleared by a concurrent remove, which does not change the node version
+                goto retry_fetch_lv; // NOLINT
+            }
             out = v_body;
             ctx->stack(key_tup, root, target_border, cmp_to_end,
                        {v_at_fb, permutation(target_border->get_permutation().get_body()), 0});
